@@ -523,14 +523,38 @@ cmp_body(void *arg) {
   for (i = 0; i < n; i++) kh_apply(&h, &ops[i]);
   kh_close(&h);
   before = vfs_hash(vfs_cur, DB, 1);
-  ldb_comparator_init(&other, "verif.OtherComparator", other_compare, NULL);
-  o2 = h.o.opt;
-  o2.comparator = &other;
-  rc = ldb_open(DB, &o2, &b);
-  if (rc == LDB_OK) { rfail(r, "comparator-mismatch-accepted", "open with a different comparator succeeded"); ldb_close(b); }
-  after = vfs_hash(vfs_cur, DB, 1);
-  if (r->ok && before != after)
-    rfail(r, "refused-open-modified-database", "a refused open (comparator mismatch) changed database files");
+  {
+    /* every name that is not exactly the stored one is a different comparator: unrelated, the stored name
+     * extended, a strict prefix of it, same length with another last byte, another case, empty */
+    const char *stored = h.o.opt.comparator ? h.o.opt.comparator->name : ldb_bytewise_comparator->name;
+    static char names[6][96];
+    int q;
+    snprintf(names[0], sizeof(names[0]), "verif.OtherComparator");
+    snprintf(names[1], sizeof(names[1]), "%s2", stored);
+    snprintf(names[2], sizeof(names[2]), "%.*s", (int)strlen(stored) - 1, stored);
+    snprintf(names[3], sizeof(names[3]), "%.*s#", (int)strlen(stored) - 1, stored);
+    snprintf(names[4], sizeof(names[4]), "%s", stored);
+    names[4][0] = (char)(names[4][0] ^ 0x20);
+    names[5][0] = 0;
+    for (q = 0; q < 6 && r->ok; q++) {
+      char m[200];
+      ldb_comparator_init(&other, names[q], other_compare, NULL);
+      o2 = h.o.opt;
+      o2.comparator = &other;
+      b = NULL;
+      rc = ldb_open(DB, &o2, &b);
+      if (rc == LDB_OK) {
+        snprintf(m, sizeof(m), "open with a comparator named '%s' succeeded on a database created with '%s'", names[q], stored);
+        rfail(r, "comparator-mismatch-accepted", m);
+        ldb_close(b);
+      }
+      after = vfs_hash(vfs_cur, DB, 1);
+      if (r->ok && before != after) {
+        snprintf(m, sizeof(m), "a refused open (comparator '%s' vs stored '%s') changed database files", names[q], stored);
+        rfail(r, "refused-open-modified-database", m);
+      }
+    }
+  }
   o2 = h.o.opt;
   o2.error_if_exists = 1;
   rc = ldb_open(DB, &o2, &b);
